@@ -21,6 +21,12 @@ pub struct NodeSpec {
     pub dt: u64,
     /// index of the genesis output this block's transfer tries to spend (None = no tx)
     pub spend: Option<usize>,
+    /// the transfer spends an output that was already spent on the block's own path:
+    /// the block is invalid because a transaction is invalid (not because of its header)
+    pub bad_spend: bool,
+    /// for header-invalid blocks: how much the claimed burn fee is inflated (0 = by one nolan).
+    /// Fork choice reads the claimed burn fee before the block is validated.
+    pub bf_boost: u64,
 }
 
 #[derive(Clone, Debug)]
@@ -29,6 +35,8 @@ pub struct TreeSpec {
     pub nodes: Vec<NodeSpec>,
     pub n_outputs: usize,
     pub loading_completed: bool,
+    /// prune_after_blocks of the node under test
+    pub pab: u64,
 }
 
 pub struct BuiltTree {
@@ -57,6 +65,17 @@ pub fn params(gp: u64, loading_completed: bool) -> Params {
     }
 }
 
+/// the node used to BUILD blocks: same consensus parameters, but the golden-ticket
+/// density check is bypassed (browser flag) and nothing is ever pruned, so that
+/// chains whose density fails at some tip can still be extended by the producer.
+/// Block::create / Block::validate do not depend on these two settings.
+pub fn builder_node(gp: u64) -> Node {
+    let mut n = Node::new(&params(gp, false), 1);
+    n.cfg.browser = true;
+    n.cfg.consensus.prune_after_blocks = 1_000_000;
+    n
+}
+
 fn ancestors(nodes: &[NodeSpec], i: usize) -> Vec<usize> {
     let mut v = vec![];
     let mut cur = Some(i);
@@ -68,22 +87,24 @@ fn ancestors(nodes: &[NodeSpec], i: usize) -> Vec<usize> {
     v
 }
 
-/// Tries to build node `i` (its parent must be built). Returns None if the
-/// real producer cannot build it (e.g. the path is rejected for golden tickets).
+/// Tries to build node `i` (its parent must be built). Returns (delivered block,
+/// valid twin that children are built on, is the delivered block valid when wound on
+/// its parent chain). None if the producer cannot build it.
 pub async fn build_node(
     spec: &TreeSpec,
     built: &BuiltTree,
     i: usize,
-) -> Option<(Block, Block)> {
+) -> Option<(Block, Block, bool)> {
     let ns = &spec.nodes[i];
-    let mut builder = Node::new(&params(spec.gp, false), 1);
-    let (valid, _) = match ns.parent {
+    let mut builder = builder_node(spec.gp);
+    let cfg = builder.cfg.clone();
+    let (valid, delivered_valid, delivered0) = match ns.parent {
         None => {
             let issuance: Vec<_> = (0..spec.n_outputs)
                 .map(|k| (builder.pk, 1_000_000 + 1000 * k as u64))
                 .collect();
             let g = make_genesis(&builder, 1_000_000, &issuance).await.ok()?;
-            (g, 0)
+            (g.clone(), true, g)
         }
         Some(p) => {
             let path = ancestors(&spec.nodes, p);
@@ -93,56 +114,98 @@ pub async fn build_node(
                 if r != Ok(AddClass::OnChain) {
                     return None;
                 }
+                // the builder runs with the browser flag (no golden-ticket density check), which
+                // also disables block persistence: persist by hand, the rebroadcast section of
+                // generate_consensus_values reads the block leaving the window from disk
+                builder.storage.write_block_to_disk(&built.valid_twin[*a]).await;
                 if let Some(s) = spec.nodes[*a].spend {
-                    spent.insert(s);
+                    if !spec.nodes[*a].bad_spend {
+                        spent.insert(s);
+                    }
                 }
             }
             let parent = &built.valid_twin[p];
             let ts = parent.timestamp + ns.dt;
-            let mut txs = vec![];
+            let g = &built.valid_twin[path[0]];
+            let mk = |s: usize, ts: u64| {
+                let slip: Slip = g.transactions[s].to[0].clone();
+                make_tx(&[slip.clone()], &[(builder.pk, slip.amount)], &builder.sk, ts)
+            };
+            let mut good_txs = vec![];
+            let mut bad_txs = vec![];
             if let Some(s) = ns.spend {
-                if !spent.contains(&s) && s < spec.n_outputs {
-                    // spend output s of the genesis block (tx index s, slip 0)
-                    let g = &built.valid_twin[path[0]];
-                    let slip: Slip = g.transactions[s].to[0].clone();
-                    let fee = 0;
-                    txs.push(make_tx(
-                        &[slip.clone()],
-                        &[(builder.pk, slip.amount - fee)],
-                        &builder.sk,
-                        ts,
-                    ));
+                if s < spec.n_outputs {
+                    if ns.bad_spend {
+                        // must be an output already spent on the path
+                        if !spent.contains(&s) {
+                            return None;
+                        }
+                        bad_txs.push(mk(s, ts));
+                    } else if !spent.contains(&s) {
+                        good_txs.push(mk(s, ts));
+                    }
                 }
             }
-            let b = make_block(&builder, parent.hash, ts, txs, ns.gt, i as u64 * 7919 + 13)
-                .await
-                .ok()?;
-            // only blocks that the real node accepts on top of their path are kept as "valid"
-            match futures_catch(AssertUnwindSafe(builder.add_block(b.clone()))).await {
-                Ok(AddClass::OnChain) => {}
-                Ok(_) => return None,
+            let seed = i as u64 * 7919 + 13;
+            let b = make_block(&builder, parent.hash, ts, good_txs.clone(), ns.gt, seed).await.ok()?;
+            let ok = match futures_catch(AssertUnwindSafe(b.validate(
+                &builder.blockchain,
+                &builder.blockchain.utxoset,
+                &cfg,
+                &builder.storage,
+                true,
+            )))
+            .await
+            {
+                Ok(v) => v,
                 Err(msg) => {
                     BUILDER_PANICS.with(|c| c.borrow_mut().push(msg));
                     return None;
                 }
+            };
+            if !ok {
+                // the producer built a block its own validation rejects (e.g. no transactions): not usable
+                return None;
             }
-            (b, 0)
+            if !bad_txs.is_empty() {
+                // delivered version carries the invalid transfer; children build on the clean twin
+                let mut all = good_txs.clone();
+                all.extend(bad_txs);
+                let d = make_block(&builder, parent.hash, ts, all, ns.gt, seed).await.ok()?;
+                let dv = futures_catch(AssertUnwindSafe(d.validate(
+                    &builder.blockchain,
+                    &builder.blockchain.utxoset,
+                    &cfg,
+                    &builder.storage,
+                    true,
+                )))
+                .await
+                .unwrap_or(true);
+                if dv {
+                    return None; // not actually invalid: drop
+                }
+                (b, false, d)
+            } else {
+                (b.clone(), true, b)
+            }
         }
     };
     // delivered version
-    let mut delivered = valid.clone();
+    let mut delivered = delivered0;
+    let mut is_valid = delivered_valid;
     if let Some(p) = ns.parent {
         if built.blocks[p].hash != built.valid_twin[p].hash {
-            // parent's delivered version is the invalid twin: relink
+            // parent's delivered version is an invalid twin: relink
             delivered.previous_block_hash = built.blocks[p].hash;
             resign(&mut delivered, &builder.sk);
         }
     }
     if ns.invalid {
-        delivered.burnfee += 1;
+        delivered.burnfee += 1 + ns.bf_boost;
         resign(&mut delivered, &builder.sk);
+        is_valid = false;
     }
-    Some((delivered, valid))
+    Some((delivered, valid, is_valid))
 }
 
 /// spends recorded on the path must use the spec of the nodes actually built:
@@ -173,20 +236,21 @@ pub async fn build_tree(spec: TreeSpec) -> BuiltTree {
         cur_spec.nodes.push(ns.clone());
         let idx = cur_spec.nodes.len() - 1;
         match build_node(&cur_spec, &built, idx).await {
-            Some((delivered, _)) if built.blocks.iter().any(|b| b.hash == delivered.hash) => {
+            Some((delivered, _, _)) if built.blocks.iter().any(|b| b.hash == delivered.hash) => {
                 // identical to an existing block (same parent, time and content)
                 remap.push(None);
             }
-            Some((delivered, valid)) => {
-                let has_tx = valid
+            Some((delivered, valid, is_valid)) => {
+                let has_tx = delivered
                     .transactions
                     .iter()
                     .any(|t| t.transaction_type as u8 == 0 && !t.from.is_empty());
                 if !has_tx {
                     ns.spend = None;
+                    ns.bad_spend = false;
                 }
                 let parent_inv = ns.parent.map(|p| built.eff_invalid[p]).unwrap_or(false);
-                built.eff_invalid.push(parent_inv || ns.invalid);
+                built.eff_invalid.push(parent_inv || !is_valid);
                 built.blocks.push(delivered);
                 built.valid_twin.push(valid);
                 kept_nodes.push(ns);
@@ -284,20 +348,24 @@ pub fn gallina_blocks(t: &BuiltTree, int: &mut Interned) -> String {
 }
 
 pub fn snapshot_rows(int: &mut Interned, code: u64, steps: u64, s: &ChainSnapshot) -> Vec<Vec<u64>> {
-    let mut rows = vec![vec![code, steps], vec![s.tip_id, hidx(int, &s.tip_hash)]];
+    let mut rows = vec![
+        vec![code, steps],
+        vec![s.tip_id, hidx(int, &s.tip_hash), s.last_block_id, hidx(int, &s.last_block_hash)],
+    ];
     let mut lc = vec![];
     for (id, h) in &s.lc_index {
         lc.push(*id);
         lc.push(hidx(int, h));
     }
     rows.push(lc);
-    let mut bl: Vec<(u64, u64, u64)> = s
+    let mut bl: Vec<(u64, u64, u64, u64)> = s
         .blocks
         .iter()
-        .map(|(h, id, lc)| (hidx(int, h), *id, *lc as u64))
+        .zip(s.in_ring.iter())
+        .map(|((h, id, lc), r)| (hidx(int, h), *id, *lc as u64, *r as u64))
         .collect();
     bl.sort();
-    rows.push(bl.iter().flat_map(|(h, id, lc)| vec![*h, *id, *lc]).collect());
+    rows.push(bl.iter().flat_map(|(h, id, lc, r)| vec![*h, *id, *lc, *r]).collect());
     let mut ut: Vec<u64> = s
         .utxo
         .iter()
@@ -310,7 +378,9 @@ pub fn snapshot_rows(int: &mut Interned, code: u64, steps: u64, s: &ChainSnapsho
 
 /// Delivers `order` (indices into the tree, duplicates allowed) to a fresh node.
 pub async fn deliver(t: &BuiltTree, int: &mut Interned, order: &[usize], allow_orphans: bool) -> RunOut {
-    let mut node = Node::new(&params(t.spec.gp, t.spec.loading_completed), 1);
+    let mut np = params(t.spec.gp, t.spec.loading_completed);
+    np.prune_after_blocks = t.spec.pab;
+    let mut node = Node::new(&np, 1);
     let mut out = RunOut { obs: vec![], rows: vec![], delivered: vec![], first_orphan: None };
     saito_core::core::consensus::blockchain::VERIF_WIND_STEPS.with(|c| c.set((0, u64::MAX)));
     for &i in order {
@@ -360,6 +430,17 @@ pub async fn deliver(t: &BuiltTree, int: &mut Interned, order: &[usize], allow_o
                     (w.get_available_balance(), w.get_unspent_slip_count())
                 };
                 let steps = saito_core::core::consensus::blockchain::VERIF_WIND_STEPS.with(|c| c.get().0);
+                if let Ok(a) = std::env::var("VERIF_TRACE_AMOUNT") {
+                    let amt: u64 = a.parse().unwrap_or(0);
+                    let ks: Vec<String> = snap
+                        .utxo
+                        .iter()
+                        .map(|(k, _)| Slip::parse_slip_from_utxokey(k).unwrap())
+                        .filter(|s| s.amount == amt)
+                        .map(|s| format!("{}:{}:{}", s.block_id, s.tx_ordinal, s.slip_index))
+                        .collect();
+                    eprintln!("TRACE after block {} ({:?}): amount {} at {:?}", i + 1, class, amt, ks);
+                }
                 out.rows.push(snapshot_rows(int, class.code(), steps, &snap));
                 out.obs.push(Obs { code: class.code(), snap: Some(snap), wallet, panic_msg: None });
             }
@@ -457,9 +538,16 @@ pub fn oracle_c03(t: &BuiltTree, s: &ChainSnapshot) -> Vec<String> {
     if real != utxo {
         let extra = real.difference(&utxo).count();
         let missing = utxo.difference(&real).count();
+        let show = |k: &[u8; 59]| {
+            let s = Slip::parse_slip_from_utxokey(k).unwrap();
+            format!("{}:{}:{} amount {}", s.block_id, s.tx_ordinal, s.slip_index, s.amount)
+        };
         f.push(format!(
-            "spendable set differs from the replay of the longest chain: {} extra, {} missing",
-            extra, missing
+            "spendable set differs from the replay of the longest chain: {} extra, {} missing (extra: {:?}; missing: {:?})",
+            extra,
+            missing,
+            real.difference(&utxo).take(3).map(show).collect::<Vec<_>>(),
+            utxo.difference(&real).take(3).map(show).collect::<Vec<_>>()
         ));
     }
     if s.utxo.iter().any(|(_, v)| !*v) {
@@ -481,6 +569,11 @@ pub fn oracle_c03(t: &BuiltTree, s: &ChainSnapshot) -> Vec<String> {
         let should = on_chain.get(id) == Some(h);
         if *lc != should {
             f.push(format!("block id {} on-chain flag is {} but should be {}", id, lc, should));
+        }
+    }
+    for ((_, id, _), r) in s.blocks.iter().zip(s.in_ring.iter()) {
+        if !*r {
+            f.push(format!("stored block at height {} has no entry in the block ring", id));
         }
     }
     if s.tip_id != 0 && (s.last_block_id != s.tip_id || s.last_block_hash != s.tip_hash) {
@@ -517,6 +610,9 @@ pub fn oracle_c04(before: &Obs, after: &Obs) -> Vec<String> {
         if a.blocks != b.blocks {
             f.push("rejected block changed the stored blocks / on-chain flags".to_string());
         }
+        if a.in_ring != b.in_ring {
+            f.push("rejected block changed the block ring entries of other stored blocks".to_string());
+        }
         if before.wallet != after.wallet {
             f.push(format!(
                 "rejected block changed the wallet: {:?} -> {:?}",
@@ -535,6 +631,7 @@ pub fn empty_obs() -> Obs {
             tip_hash: [0; 32],
             lc_index: vec![],
             blocks: vec![],
+            in_ring: vec![],
             utxo: vec![],
             last_block_id: 0,
             last_block_hash: [0; 32],
@@ -663,7 +760,7 @@ pub fn oracle_c05(t: &BuiltTree, delivered: usize, before: &Obs, after: &Obs) ->
 
 pub fn random_spec(rng: &mut Rng, max_nodes: usize, gp: u64, invalid_pct: u64, loading: bool) -> TreeSpec {
     let n = rng.range(2, max_nodes as u64) as usize;
-    let mut nodes = vec![NodeSpec { parent: None, gt: false, invalid: false, dt: 0, spend: None }];
+    let mut nodes = vec![NodeSpec { parent: None, gt: false, invalid: false, dt: 0, spend: None, bad_spend: false, bf_boost: 0 }];
     let n_outputs = 4;
     for i in 1..n {
         // mostly extend recent nodes to get long-ish forks
@@ -678,9 +775,93 @@ pub fn random_spec(rng: &mut Rng, max_nodes: usize, gp: u64, invalid_pct: u64, l
             invalid: rng.chance(invalid_pct, 100),
             dt: *rng.pick(&[2 * HEARTBEAT, 3 * HEARTBEAT, 10 * HEARTBEAT, 1000 * HEARTBEAT]),
             spend: if rng.chance(2, 3) { Some(rng.below(n_outputs as u64) as usize) } else { None },
+            bad_spend: rng.chance(invalid_pct, 200),
+            bf_boost: if rng.chance(1, 3) { 1_000_000_000_000 } else { 0 },
         });
     }
-    TreeSpec { gp, nodes, n_outputs, loading_completed: loading }
+    let pab = *rng.pick(&[2u64, 3, 8, 8]);
+    TreeSpec { gp, nodes, n_outputs, loading_completed: loading, pab }
+}
+
+/// Scripted two-branch forks: common prefix, a main branch and a side branch with chosen
+/// lengths, timestamp profiles (burn fee), golden-ticket patterns, conflicting transfers and
+/// an optional invalid block (header mutation or invalid transfer) at a chosen position of
+/// the side branch. `k` enumerates the family.
+pub fn fork_family(rng: &mut Rng, k: usize) -> TreeSpec {
+    let gp = [8u64, 20, 5, 20][k % 4];
+    let deep = k % 9 == 8;
+    let prefix = 1 + (k / 4) % 2; // common blocks after genesis
+    let m = if deep { 9 + (k / 9) % 2 } else { 1 + (k / 3) % 5 };
+    let s = m + [1usize, 2, 0, 1, 3][(k / 5) % 5];
+    let dts = [2 * HEARTBEAT, 1000 * HEARTBEAT, 10 * HEARTBEAT];
+    let dt_main = dts[(k / 2) % 3];
+    let dt_side = dts[(k / 7) % 3];
+    let gt_pat = (k / 11) % 5;
+    let mixed_dt = (k / 23) % 2 == 1;
+    let inv_pos: Option<usize> = match (k / 13) % 5 {
+        1 => Some(0),
+        2 => Some(s / 2),
+        3 => Some(s - 1),
+        _ => None,
+    };
+    let inv_kind_bad_spend = (k / 17) % 2 == 1;
+    let n_outputs = 8;
+    let mut nodes = vec![NodeSpec { parent: None, gt: false, invalid: false, dt: 0, spend: None, bad_spend: false, bf_boost: 0 }];
+    for i in 0..prefix {
+        nodes.push(NodeSpec { parent: Some(i), gt: true, invalid: false, dt: 10 * HEARTBEAT, spend: Some(i % n_outputs), bad_spend: false, bf_boost: 0 });
+    }
+    let fork = prefix; // index of the fork point
+    let mut parent = fork;
+    for i in 0..m {
+        nodes.push(NodeSpec {
+            parent: Some(parent),
+            gt: true,
+            invalid: false,
+            dt: dt_main + rng.below(3),
+            spend: Some((prefix + i) % n_outputs),
+            bad_spend: false,
+            bf_boost: 0,
+        });
+        parent = nodes.len() - 1;
+    }
+    let main_tip = parent;
+    parent = fork;
+    for i in 0..s {
+        let gt = match gt_pat {
+            0 => true,
+            1 => i + 2 >= s,
+            2 => i == 0,
+            3 => i % 2 == 0,
+            _ => false,
+        };
+        let is_inv = inv_pos == Some(i);
+        nodes.push(NodeSpec {
+            parent: Some(parent),
+            gt,
+            invalid: is_inv && !inv_kind_bad_spend,
+            dt: if mixed_dt { *rng.pick(&dts) + rng.below(3) } else { dt_side + rng.below(3) },
+            // conflicting with the main branch (same outputs) or, for an invalid transfer, an
+            // output spent in the common prefix
+            spend: if is_inv && inv_kind_bad_spend { Some(0) } else { Some((prefix + i + (k % 2) * 3) % n_outputs) },
+            bad_spend: is_inv && inv_kind_bad_spend,
+            bf_boost: if (k / 31) % 2 == 1 { 1_000_000_000_000 } else { 0 },
+        });
+        parent = nodes.len() - 1;
+    }
+    if (k / 29) % 3 == 1 {
+        // an invalid child of the main tip: shares its height with a block of the side branch
+        nodes.push(NodeSpec {
+            parent: Some(main_tip),
+            gt: true,
+            invalid: true,
+            dt: dt_main,
+            spend: Some((prefix + m) % n_outputs),
+            bad_spend: false,
+            bf_boost: 0,
+        });
+    }
+    let pab = if deep { 8 } else { [2u64, 8, 3][(k / 19) % 3] };
+    TreeSpec { gp, nodes, n_outputs, loading_completed: false, pab }
 }
 
 /// a delivery order: parents-before-children mostly, sometimes shuffled, with duplicates
@@ -724,12 +905,13 @@ pub fn spec_json(t: &BuiltTree, order: &[usize]) -> String {
         .enumerate()
         .map(|(i, n)| {
             format!(
-                "{{\"block\":{},\"parent\":{},\"id\":{},\"gt\":{},\"invalid\":{},\"dt\":{},\"spends_genesis_output\":{},\"burnfee\":{}}}",
+                "{{\"block\":{},\"parent\":{},\"id\":{},\"gt\":{},\"invalid\":{},\"bad_spend\":{},\"dt\":{},\"spends_genesis_output\":{},\"burnfee\":{}}}",
                 i + 1,
                 n.parent.map(|p| (p + 1).to_string()).unwrap_or("null".to_string()),
                 t.blocks[i].id,
                 n.gt,
                 n.invalid,
+                n.bad_spend,
                 n.dt,
                 n.spend.map(|s| s.to_string()).unwrap_or("null".to_string()),
                 t.blocks[i].burnfee
@@ -737,8 +919,9 @@ pub fn spec_json(t: &BuiltTree, order: &[usize]) -> String {
         })
         .collect();
     format!(
-        "{{\"genesis_period\":{},\"initial_loading_completed\":{},\"blocks\":[{}],\"delivery_order\":{:?}}}",
+        "{{\"genesis_period\":{},\"prune_after_blocks\":{},\"initial_loading_completed\":{},\"blocks\":[{}],\"delivery_order\":{:?}}}",
         t.spec.gp,
+        t.spec.pab,
         t.spec.loading_completed,
         nodes.join(","),
         order.iter().map(|i| i + 1).collect::<Vec<_>>()
@@ -771,18 +954,23 @@ pub fn classify(prop: &str, what: &str, after_orphan: bool) -> Option<&'static s
 pub async fn run_property(profile: &Profile, args: &Args) {
     let mut rng = Rng::new(args.seed);
     let thorough = args.tier == "thorough";
-    let n_trees = if thorough { 260 } else { 45 };
-    let orders_per_tree = if thorough { 10 } else { 6 };
+    let n_trees = if thorough { 600 } else { 120 };
+    let orders_per_tree = if thorough { 10 } else { 5 };
     let mut summary = Summary::new(profile.prop);
     let mut coq_cases: Vec<String> = vec![];
     let mut distinct: BTreeSet<String> = BTreeSet::new();
     let mut case_no = 0usize;
     let mut model_cases = 0usize;
-    for ti in 0..n_trees {
-        let gp = *rng.pick(&[3u64, 5, 8, 20]);
-        let max_nodes = if thorough { 14 } else { 11 };
-        let loading = false;
-        let spec = random_spec(&mut rng, max_nodes, gp, profile.invalid_pct, loading);
+    let n_family = if thorough { 1500 } else { 330 };
+    for ti in 0..(n_trees + n_family) {
+        let spec = if ti < n_family {
+            fork_family(&mut rng, ti)
+        } else {
+            let gp = *rng.pick(&[3u64, 5, 8, 20]);
+            let max_nodes = if thorough { 14 } else { 11 };
+            random_spec(&mut rng, max_nodes, gp, profile.invalid_pct, false)
+        };
+        let family = ti < n_family;
         let t = build_tree(spec).await;
         if t.blocks.len() < 2 {
             continue;
@@ -856,6 +1044,7 @@ pub async fn run_property(profile: &Profile, args: &Args) {
                 }
                 prev = o.clone();
             }
+            summary.count("generator", if family { "fork-family" } else { "random" });
             summary.count("blocks", &format!("{}", t.blocks.len()));
             summary.count("gp", &format!("{}", t.spec.gp));
             summary.count("reorgs", &format!("{}", reorgs.min(4)));
